@@ -298,3 +298,27 @@ package schema
 //@   maypanic
 //@   ensures normal && result1 == nil ==> len(result0.Children) == len(n.children)
 //@   loop 0 invariant len(an.Children) == rangeindex + 1 && (an.Children.$arr == 0 || an.Children.$arr > old(alloc)) && l == len(n.children)
+
+// ---- C01/C13: the key table of an object node ----
+//@ func (*ObjectNodeKeys).Set(v)
+//@   props C01 C13 C08
+//@   requires keysWF(k) && v.Index == len(k.Data)
+//@   maypanic
+//@   modifies k.index[*], k.Data, k.Data[*]
+//@   ensures panics <==> (exists q indexKey :: q.Key == v.Key && q.IsShortcut == v.IsShortcut && old(dom(k.index, q)))
+//@   ensures panics ==> errWF(pv)
+//@   ensures normal ==> keysWF(k) && len(k.Data) == old(len(k.Data)) + 1 && k.Data[old(len(k.Data))].Key == v.Key && k.Data[old(len(k.Data))].IsShortcut == v.IsShortcut
+//@   ensures normal ==> (forall j :: 0 <= j && j < old(len(k.Data)) ==> k.Data[j] == old(k.Data[j]))
+
+//@ func (ObjectNodeKeys).Get(key, isShortcut)
+//@   props C01 C13
+//@   requires k.index != nil ==> (forall q indexKey :: dom(k.index, q) ==> 0 <= k.index[q] && k.index[q] < len(k.Data) && k.Data[k.index[q]].Key == q.Key && k.Data[k.index[q]].IsShortcut == q.IsShortcut)
+//@   nopanic
+//@   ensures forall q indexKey :: q.Key == key && q.IsShortcut == isShortcut ==> result1 == dom(k.index, q)
+//@   ensures result1 ==> result0.Key == key && result0.IsShortcut == isShortcut
+
+//@ func (ObjectNodeKeys).Find(i)
+//@   props C01
+//@   requires i >= 0
+//@   nopanic
+//@   ensures result1 == (i < len(k.Data)) && (result1 ==> result0 == k.Data[i])
